@@ -1207,6 +1207,8 @@ def run(ctx, out, tier):
     check_flags(ctx, out)
     check_cli_shape(ctx, out, "C14.cli", {"disabled_validators": "option", "enabled_validators": "option"})
     check_selection_readers(ctx, out)
+    from rules.shared import check_detect_cases
+    check_detect_cases(ctx, out, ["affects", "keep-sorted", "keep-unique", "line-pattern", "line-count", "check-lua", "check-ai"], rule="C14.detectcase")
     # the rejection of an unknown / conflicting selection reaches the exit status (no Result dropped
     # in main, the flag accessors and the validator driver), and each validator's diagnostics survive
     # the merge whichever other validators are selected
